@@ -175,6 +175,20 @@ def allocRun (count tail : Nat) : List Nat :=
 def stepModel (d : D) (line : String) : D × String :=
   let ws := words line
   match ws.head? with
+  | some "crowd" =>
+    -- n independent services (one model instance each): one request, one reply, callback returns
+    match kvNat ws "n", kvNat ws "w" with
+    | some n, some w =>
+      if n < 1 || n > 64 then (d, "bad-op") else
+      let one (i : Nat) : String :=
+        let s := run (init maxReqId 0) [.issue true true true, .response 1 (.ok (some w)), .ret]
+        let cbs := s.log.reverse.filterMap fun e => match e with
+          | .cb _ _ o _ => some (classOf o)
+          | _ => none
+        s!"{i}:{if cbs.isEmpty then "none" else "+".intercalate cbs}"
+      let left := (run (init maxReqId 0) [.issue true true true, .response 1 (.ok (some w)), .ret]).pending.length * n
+      (d, s!"ok crowd={n} cb={joinC ((List.range n).map one)} timers=3 posts=3 left={left} viol=")
+    | _, _ => (d, "bad-op")
   | some "allocrun" =>
     match kvNat ws "count", kvNat ws "tail" with
     | some c, some t => (d, s!"ok ids={joinC ((allocRun c t).map toString)}")
@@ -277,6 +291,25 @@ def specStep (st : SS) (line : String) : SS × String :=
     let os := words obs
     match ws.head? with
     | some "reset" => ({}, if obs == "ok" then "ok" else viol "harness" "reset failed" op)
+    | some "crowd" =>
+      -- many services on one dispatcher: each request completed exactly once with its reply, all code of the
+      -- services on the one service goroutine, never two pieces at a time
+      if os.head? != some "ok" then (st, "ok") else
+      let v := (kv os "viol").getD ""
+      let w := (kvNat ws "w").getD 0
+      let bad := (listOf os "cb").filter fun e => match e.splitOn ":" with
+        | _ :: rest => ":".intercalate rest != s!"ok:{w}"
+        | _ => true
+      if (v.splitOn "ctx:").length > 1 then
+        (st, viol "callback-foreign-context" s!"service code ran outside the service goroutine: {v}" op)
+      else if v != "" then
+        (st, viol "callback-foreign-context" s!"two pieces of service code ran at the same time: {v}" op)
+      else match bad with
+        | b :: _ =>
+          if (b.splitOn "+").length > 1 then (st, viol "callback-twice" s!"crowd member completed more than once: {b}" op)
+          else if (b.splitOn "none").length > 1 then (st, viol "never-completed" s!"crowd member never completed: {b}" op)
+          else (st, viol "callback-wrong-reply" s!"crowd member completed with the wrong reply: {b}" op)
+        | [] => if (kvNat os "left").getD 0 != 0 then (st, viol "pending-residue" "crowd members left entries behind" op) else (st, "ok")
     | some opk =>
       if st.poisoned || os.head? == some "bad-op" then (st, "ok") else
       if (obs.splitOn "panic").length > 1 || (obs.splitOn "<no-observation").length > 1 then
